@@ -332,6 +332,11 @@ func (w *World) respCallback(ctx sdk.Context, id tmbytes.HexBytes, outs []string
 				rerr = w.k.PauseRequestContext(ctx, id, rc.Consumer)
 			}
 			rec.React, rec.ReactOK = w.cfg.ReactResp, rerr == nil
+		} else if found && rc.Repeated && rc.State == types.PAUSED && w.cfg.ReactResp == "start" {
+			// "resume once the batch is in": the module paused its context while the batch was in flight
+			// and starts it again when it is told that the batch is over
+			rerr := w.k.StartRequestContext(ctx, id, rc.Consumer)
+			rec.React, rec.ReactOK = "start", rerr == nil
 		}
 	}
 	w.cbs = append(w.cbs, rec)
